@@ -656,7 +656,7 @@ class ChmSel(Selection):
             return ChmSel(chm)
 
     def check(self) -> bool:
-        return _skip_index_levels(self.c).has_value()
+        return _has_value_below_index_levels(self.c)
 
     def get_subselection(self, addr: StaticAddressComponent) -> Selection:
         submap = self.c.get_inner_map(addr)
@@ -668,11 +668,18 @@ class ChmSel(Selection):
 ###############
 
 
-def _skip_index_levels(chm: "ChoiceMap") -> "ChoiceMap":
-    """Index levels are transparent to selections: look through them."""
-    while isinstance(chm, Indexed):
-        chm = chm.c
-    return chm
+def _has_value_below_index_levels(chm: "ChoiceMap") -> bool:
+    """Index levels are transparent to selections: look through them, also
+    inside unions and switches whose operands carry index levels."""
+    if isinstance(chm, Indexed):
+        return _has_value_below_index_levels(chm.c)
+    if isinstance(chm, Or):
+        return _has_value_below_index_levels(
+            chm.c1
+        ) or _has_value_below_index_levels(chm.c2)
+    if isinstance(chm, Switch):
+        return any(_has_value_below_index_levels(c) for c in chm.chms)
+    return chm.has_value()
 
 
 @dataclass(frozen=True)
